@@ -124,6 +124,11 @@ def pMany {α} (p : P α) : Nat → P (List α)
       | none => none
       | some (as, ws2) => some (a :: as, ws2)
 
+def pSigInfo : P SigInfo := fun ws =>
+  match ws with
+  | pk :: sg :: rest => some ({ pubkeyMatches := pk == "1", sigValid := sg == "1" }, rest)
+  | _ => none
+
 def pPriceTD : P PriceTD := fun ws =>
   match ws with
   | pr :: dec :: tk :: ts :: det :: rest =>
@@ -206,13 +211,17 @@ def step (s : State) (w : List String) : State × String :=
     match getAgc s0 with
     | some s' => (s', fullObs s')
     | none => (s0, "panic")
-  | "orc.tx" :: sz :: pk :: sg :: nm :: rest =>
-    match pMany pMsg (parseNat! nm) rest with
-    | some (msgs, _) =>
-      let tx : Tx := { size := parseNat! sz, pubkeyMatches := pk == "1", sigValid := sg == "1", msgs := msgs }
-      let (s', out) := deliverTx s tx
-      (s', showOut out ++ "|" ++ fullObs s')
-    | none => (s, "bad-op")
+  | "orc.tx" :: sz :: ni :: rest0 =>
+    -- orc.tx size nInfos (pk sg)* nMsgs msg*
+    match pMany pSigInfo (parseNat! ni) rest0 with
+    | some (infos, nm :: rest) =>
+      match pMany pMsg (parseNat! nm) rest with
+      | some (msgs, _) =>
+        let tx : Tx := { size := parseNat! sz, infos := infos, msgs := msgs }
+        let (s', out) := deliverTx s tx
+        (s', showOut out ++ "|" ++ fullObs s')
+      | none => (s, "bad-op")
+    | _ => (s, "bad-op")
   | ["orc.end", upd] =>
     match endBlock s (parseUpdates upd) with
     | some s' => (s', fullObs s')
